@@ -328,8 +328,9 @@ theorem pset_v0_ser_parse (ko : KeyOps) (p : LPset) (h : LPsetWF0 ko p) :
     ∃ b, LPset.ser p = some b ∧ LPset.parse ko b = some p.norm :=
   LPset.parse_ser_v0 ko p h
 
--- GOAL (not proved): pset_v0_parse_wf_partial — outside a D53-like region every version-0 PSET that `PSET.parse` returns satisfies
---   `LPsetWF0` (false in general: the transaction rebuilt from scope fields of arbitrary length need not be well-formed).
+-- (the former GOAL `pset_v0_parse_wf_partial` is proved as `C18Z.pset_v0_parse_wf` / `pset_v0_parse_ser_parse`, for the
+--  well-formedness `LPsetWF0K` that admits the transaction parts kept since fix `d53`, under `LPset.noOwnIssuance`; the
+--  witness that the condition is needed is `C18Z.pset_v0_own_issuance_unparseable`.)
 
 /-! non-vacuity: a PSETv2 object with liquid fields, a liquid-unknown key and a bitcoin field in every scope -/
 
